@@ -235,6 +235,42 @@ func (d *devConn) Close() error {
 	return nil
 }
 
+// groupHooks records the order of hook calls on a shared client. The hooks carry no call identifier, so a consumer can
+// only attribute them if the calls of one exchange arrive as one group: write, reads, parse - never interleaved with
+// another exchange's.
+type groupHooks struct {
+	mu  sync.Mutex
+	seq []byte // 'W', 'R', 'P'
+}
+
+func (h *groupHooks) add(k byte) {
+	h.mu.Lock()
+	if len(h.seq) < 1<<16 {
+		h.seq = append(h.seq, k)
+	}
+	h.mu.Unlock()
+}
+func (h *groupHooks) BeforeWrite([]byte)               { h.add('W') }
+func (h *groupHooks) AfterEachRead([]byte, int, error) { h.add('R') }
+func (h *groupHooks) BeforeParse([]byte) {
+	time.Sleep(150 * time.Microsecond) // a hook that logs takes a moment; its record is complete when it returns
+	h.add('P')
+}
+
+// brokenRequest is an application-defined request whose encoding panics.
+type brokenRequest struct{}
+
+func (brokenRequest) FunctionCode() uint8         { return 3 }
+func (brokenRequest) Bytes() []byte               { panic("verif: application request type with a broken Bytes()") }
+func (brokenRequest) ExpectedResponseLength() int { return 7 }
+
+func hooksOrNil(h *groupHooks) modbus.ClientHooks {
+	if h == nil {
+		return nil
+	}
+	return h
+}
+
 // flushPort is the serial port handed to half of the serial clients: a devConn that also implements the optional
 // Flush. The client may flush after its own exchange; a Flush that arrives while another caller's reply is still
 // outstanding means somebody touched the port without holding the client's lock.
@@ -310,6 +346,10 @@ func run(ci any, r *mon.Rec) {
 	}
 	var cl doer
 	var connect func() error
+	var gh *groupHooks
+	if c.Mode == "plain" && (c.Seed%2 == 1 || c.Client == clientx.Serial) {
+		gh = &groupHooks{}
+	}
 	// slow-device cases: replies take 40 ms each, so the callers queueing on the shared client wait longer than the write
 	// timeout (250 ms) before their turn comes; time spent waiting for the client is not time spent writing
 	wt := time.Duration(0)
@@ -322,7 +362,7 @@ func run(ci any, r *mon.Rec) {
 		if c.Mode == "reconnect" {
 			rtc = 100 * time.Millisecond
 		}
-		cfg := modbus.ClientConfig{ReadTimeout: rtc, WriteTimeout: wt, DialContextFunc: func(ctx context.Context, a string) (net.Conn, error) { return newConn(), nil }}
+		cfg := modbus.ClientConfig{ReadTimeout: rtc, WriteTimeout: wt, Hooks: hooksOrNil(gh), DialContextFunc: func(ctx context.Context, a string) (net.Conn, error) { return newConn(), nil }}
 		var nc *modbus.Client
 		if c.Client == clientx.TCP {
 			nc = modbus.NewTCPClientWithConfig(cfg)
@@ -333,10 +373,14 @@ func run(ci any, r *mon.Rec) {
 		_ = connect()
 		cl = nc
 	default:
+		sopts := []modbus.SerialClientOptionFunc{modbus.WithSerialReadTimeout(2 * time.Second)}
+		if gh != nil {
+			sopts = append(sopts, modbus.WithSerialHooks(gh))
+		}
 		if c.Seed%2 == 0 || c.Mode == "lifecycle" {
-			cl = modbus.NewSerialClient(flushPort{newConn()}, modbus.WithSerialReadTimeout(2*time.Second))
+			cl = modbus.NewSerialClient(flushPort{newConn()}, sopts...)
 		} else {
-			cl = modbus.NewSerialClient(newConn(), modbus.WithSerialReadTimeout(2*time.Second))
+			cl = modbus.NewSerialClient(newConn(), sopts...)
 		}
 	}
 	a := mon.Attrs{"client": clientx.KindName(c.Client), "mode": c.Mode}
@@ -422,6 +466,20 @@ func run(ci any, r *mon.Rec) {
 			return
 		}
 		time.Sleep(350 * time.Millisecond) // by now the late reply has arrived on the abandoned connection
+	}
+	if c.Mode == "plain" || c.Mode == "lifecycle" {
+		// one more user of the shared client whose call panics inside Do (an application-defined request type with a broken
+		// Bytes(); the caller recovers, as a supervisor would): the others must neither notice nor be locked out
+		wg.Add(1)
+		go func() {
+			defer wg.Done()
+			lr := rand.New(rand.NewSource(c.Seed ^ 0x9a71c))
+			for i := 0; i < 3; i++ {
+				time.Sleep(time.Duration(lr.Intn(1500)) * time.Microsecond)
+				mon.Catch(func() { _, _ = cl.Do(context.Background(), brokenRequest{}) })
+			}
+			r.Cover("plain", "a caller whose request panics inside Do")
+		}()
 	}
 	var callers sync.WaitGroup
 	for g := 0; g < c.G; g++ {
@@ -543,6 +601,22 @@ func run(ci any, r *mon.Rec) {
 	for _, v := range dedupe(viols) {
 		kind, detail := split(v)
 		r.Violate(c, kind, a, ctxs+": "+detail)
+	}
+	if gh != nil {
+		// every call of a plain case succeeds, so the hook calls must read (W R+ P)*
+		gh.mu.Lock()
+		state := byte('P')
+		for i, k := range gh.seq {
+			ok := (k == 'W' && state == 'P') || (k == 'R' && (state == 'W' || state == 'R')) || (k == 'P' && state == 'R')
+			if !ok {
+				lo, hi := max(0, i-12), min(len(gh.seq), i+6)
+				r.Violate(c, "hook-calls-interleaved", a, fmt.Sprintf("%s: hook call #%d is %q after %q; around it: %s (W=BeforeWrite R=AfterEachRead P=BeforeParse): the calls of two exchanges are interleaved", ctxs, i, k, state, gh.seq[lo:hi]))
+				break
+			}
+			state = k
+		}
+		r.NoteAdd("hook_calls_checked", int64(len(gh.seq)))
+		gh.mu.Unlock()
 	}
 	finishConns(c, r, conns, a, ctxs, c.Mode == "plain")
 }
